@@ -137,6 +137,43 @@ class TStr:
             return TStr([('bad', f"strip of {k} characters from a shorter string")])
         return TStr(toks)
 
+    def rstrip_chars(self, chars):
+        """t.rstrip(chars): a *set* of characters is removed from the end, not a suffix.  Exact on literal tails; when
+        the stripping reaches a symbolic prefix that can consist of characters of the set ('m' in 'mol'), the prefix is
+        removed with it for that value: 'bad'."""
+        cs = set(chars)
+        toks = list(self.tokens)
+        while toks:
+            t = toks[-1]
+            if t[0] == 'lit':
+                rest = t[1].rstrip(chars)
+                if rest:
+                    toks[-1] = ('lit', rest)
+                    break
+                toks.pop()
+                continue
+            if t[0] == 'pre':
+                common = sorted(p_ for p_ in SI if p_ and set(p_) <= cs)
+                if common:
+                    return TStr([('bad', f"rstrip({chars!r}) removes every trailing character of that set, not the "
+                                         f"suffix: the prefix {common[0]!r} is stripped with it")])
+                break
+            if t[0] == 'num':
+                if cs & NUM_CHARS:
+                    return TStr([('bad', f"rstrip({chars!r}) can remove characters of the number")])
+                break
+            break
+        return TStr(toks)
+
+    def removesuffix(self, suffix):
+        """t.removesuffix(lit): exact when endswith is decided."""
+        r = self.endswith(suffix)
+        if r is True:
+            return self.strip_tail(len(suffix))
+        if r is False:
+            return self
+        return None
+
     def char_at(self, i):
         """t[i] for small literal |i|: a literal TStr, or a 'bad' token if the position is inside a symbolic token."""
         if i < 0:
